@@ -14,11 +14,11 @@ import (
 func init() {
 	Register(&Rule{
 		ID: "C28", Section: "5 C28",
-		Technique: "witness-path analysis (drain-or-close after the handler in chunkWriter.writeHeader, response.finishRequest and bfe_http.body.Close), loop-exit reachability in conn.serve (no path from an error reply or a failed parse back to readRequest), implied-fact analysis of serveRequest's keep-alive result, guard census of the chunk writer's connection writes and of the chunking flag (bodiless replies)",
+		Technique: "witness-path analysis (drain-or-close after the handler in chunkWriter.writeHeader, response.finishRequest and bfe_http.body.Close), loop-exit reachability in conn.serve (no path from an error reply or a failed parse back to readRequest), implied-fact analysis of serveRequest's keep-alive result, guard census of the chunk writer's connection writes and of the chunking flag (bodiless replies), must-pass analysis of the connection-buffer flush after the chunk writer was closed (reply completely on the wire), value-origin census of the method consulted by the shared request/response framing code (shared with C24), who-may-write census of Request.Body/ContentLength in the request parser",
 		Meta: core.Meta{
 			Level:       "other",
-			Explanation: "Decides: (a) drain-or-close in chunkWriter.writeHeader - every path to the header write either ran the bounded io.CopyN(Discard, Body, limit), or saw ContentLength == 0, closeAfterReply == true, or an un-invited 100-continue body; after the CopyN every path calls requestTooLarge() or Body.Close(); Body.Close() is reached only when fewer bytes than the limit were discarded (the body ended), requestTooLarge() is followed by setHeader.connection = \"close\" on every path to the header write, and requestTooLarge sets closeAfterReply and requestBodyLimitHit on every path; (b) response.finishRequest closes (drains) the request body on every path that did not see closeAfterReply == true; bfe_http.body.Close copies the rest of the body to Discard unless the body is already closed or the connection is closing; expectContinueReader.Close closes the wrapped body; (c) in conn.serve the next readRequest is reachable from a readRequest only over err == nil, never after an error reply written by serve itself (413/414/400, sendExpectationFailed, finishRequest, closeWriteAndWait), and after serveRequest only over `serveRequest() == true` and `closeAfterReply == false`; (d) serveRequest returns true only if both ReverseProxy.ServeHTTP and FinishReq returned keepAlive. (e) nothing follows the header block of a bodiless reply: every write of chunkWriter.Write/close/flush to the connection buffer happens under Method != HEAD or under chunking == true, and, where a write relies on the chunking flag alone (the last-chunk in close), chunking is switched on only under Method != HEAD and status not 304/204 (no stray last-chunk after a HEAD reply). Not covered: ordering of replies, at-most-one final reply per request, 100-continue sequencing on the wire, how the body length was determined (C24), what ServeHTTP returns for which failure, hijacked/websocket connections.",
-			RuleText:    "obligations = per CopyN drain site (resolved, bounded, close-only-if-ended, close announced), the no-drain paths, the writers in requestTooLarge, the exits of finishRequest / body.Close / expectContinueReader.Close, per terminal reply in conn.serve, the two loop-continue edges, per return of serveRequest, per connection write of the chunk writer after the header block, per store switching chunking on",
+			Explanation: "Decides: (a) drain-or-close in chunkWriter.writeHeader - every path to the header write either ran the bounded io.CopyN(Discard, Body, limit), or saw ContentLength == 0, closeAfterReply == true, or an un-invited 100-continue body; after the CopyN every path calls requestTooLarge() or Body.Close(); Body.Close() is reached only when fewer bytes than the limit were discarded (the body ended), requestTooLarge() is followed by setHeader.connection = \"close\" on every path to the header write, and requestTooLarge sets closeAfterReply and requestBodyLimitHit on every path; (b) response.finishRequest closes (drains) the request body on every path that did not see closeAfterReply == true; bfe_http.body.Close copies the rest of the body to Discard unless the body is already closed or the connection is closing; expectContinueReader.Close closes the wrapped body; (c) in conn.serve the next readRequest is reachable from a readRequest only over err == nil, never after an error reply written by serve itself (413/414/400, sendExpectationFailed, finishRequest, closeWriteAndWait), and after serveRequest only over `serveRequest() == true` and `closeAfterReply == false`; (d) serveRequest returns true only if both ReverseProxy.ServeHTTP and FinishReq returned keepAlive. (e) nothing follows the header block of a bodiless reply: every write of chunkWriter.Write/close/flush to the connection buffer happens under Method != HEAD or under chunking == true, and, where a write relies on the chunking flag alone (the last-chunk in close), chunking is switched on only under Method != HEAD and status not 304/204 (no stray last-chunk after a HEAD reply). (f) replies leave in order: in response.finishRequest every path from chunkWriter.close() (which puts the header block of a bodiless reply / the last-chunk into conn.buf) to the exit passes conn.buf.Flush() (directly or through a bfe_server helper that flushes on all its paths) - conn.serve writes its own 400/413/414 replies to the socket past conn.buf, so anything still buffered would be overtaken. (g) body bytes are never read as a request because of the request's method: every branch of readTransfer/fixLength/fixTransferEncoding/fixTrailer on a request method consults a method that cannot be the parsed request's own (constants or Response.Request.Method) or is taken only for responses (rule shared with C24), and inside everything bfe_http.ReadRequest / conn.readRequest run, Request.Body and Request.ContentLength are only ever set from the transferReader's Body / ContentLength. Not covered: ordering of replies beyond the end-of-reply flush, at-most-one final reply per request, 100-continue sequencing on the wire, how the body length was determined (C24), what ServeHTTP returns for which failure, hijacked/websocket connections.",
+			RuleText:    "obligations = per CopyN drain site (resolved, bounded, close-only-if-ended, close announced), the no-drain paths, the writers in requestTooLarge, the exits of finishRequest / body.Close / expectContinueReader.Close, per terminal reply in conn.serve, the two loop-continue edges, per return of serveRequest, per connection write of the chunk writer after the header block, per store switching chunking on, per chunkWriter.close call of finishRequest (flush on all paths after it), per method-dependent branch of the framing functions, per store to Request.Body/ContentLength in the request parser",
 		},
 		Run: runC28,
 		Mutants: []Mutant{
@@ -36,6 +36,11 @@ func init() {
 			{Name: "serve-ignores-keepalive-verdict", File: "bfe_server/http_conn.go", Old: "		if !isKeepAlive || w.closeAfterReply {\n			if w.requestBodyLimitHit {", New: "		if (!isKeepAlive && w.requestBodyLimitHit) || w.closeAfterReply {\n			if w.requestBodyLimitHit {", Expect: "serve-honours-close"},
 			{Name: "head-reply-chunked", File: "bfe_server/chunk_writer.go", Old: "	if w.req.Method == \"HEAD\" || code == bfe_http.StatusNotModified {\n		// do nothing", New: "	if (isHEAD && hasCL) || code == bfe_http.StatusNotModified {\n		// do nothing", Expect: "bodiless-silent|"},
 			{Name: "last-chunk-for-head", File: "bfe_server/chunk_writer.go", Old: "	if cw.chunking {\n		// zero EOF chunk,", New: "	if cw.chunking || cw.res.req.Method == \"HEAD\" {\n		// zero EOF chunk,", Expect: "bodiless-silent|"},
+			{Name: "conn-flush-before-chunk-close", File: "bfe_server/response.go", Old: "	w.cw.close()\n	w.conn.buf.Flush()\n", New: "	w.conn.buf.Flush()\n	w.cw.close()\n", Expect: "reply-flushed|"},
+			{Name: "conn-flush-only-when-keepalive", File: "bfe_server/response.go", Old: "	w.cw.close()\n	w.conn.buf.Flush()\n", New: "	w.cw.close()\n	if !w.closeAfterReply {\n		w.conn.buf.Flush()\n	}\n", Expect: "reply-flushed|"},
+			{Name: "request-method-passed-to-fixlength", File: "bfe_http/transfer.go", Old: "	realLength, err := fixLength(isResponse, t.StatusCode, t.RequestMethod, t.Header, t.TransferEncoding)", New: "	reqMethod := t.RequestMethod\n	if rq, isReq := msg.(*Request); isReq {\n		reqMethod = rq.Method\n	}\n	realLength, err := fixLength(isResponse, t.StatusCode, reqMethod, t.Header, t.TransferEncoding)", Expect: "method-independent|fixLength"},
+			{Name: "head-request-body-dropped-after-parse", File: "bfe_http/request.go", Old: "	err = readTransfer(req, b)\n	if err != nil {\n		return nil, err\n	}\n\n	return req, nil\n}", New: "	err = readTransfer(req, b)\n	if err != nil {\n		return nil, err\n	}\n	if req.Method == \"HEAD\" {\n		// a HEAD request has no use for a body\n		req.Body = EofReader\n		req.ContentLength = 0\n	}\n\n	return req, nil\n}", Expect: "body-from-framing|"},
+			{Name: "silent-flush-through-chunk-writer", Silent: true, File: "bfe_server/response.go", Old: "	w.cw.close()\n	w.conn.buf.Flush()\n", New: "	w.cw.close()\n	w.cw.flush()\n"},
 			{Name: "silent-close-tests-head-too", Silent: true, File: "bfe_server/chunk_writer.go", Old: "	if cw.chunking {\n		// zero EOF chunk,", New: "	if cw.chunking && cw.res.req.Method != \"HEAD\" {\n		// zero EOF chunk,"},
 			{Name: "silent-log-before-break", Silent: true, File: "bfe_server/http_conn.go", Old: "			w.sendExpectationFailed()\n			break", New: "			w.sendExpectationFailed()\n			log.Logger.Debug(\"conn.serve(): expectation failed\")\n			break"},
 			{Name: "silent-drain-rewritten", Silent: true, File: "bfe_server/chunk_writer.go", Old: "			if n >= maxPostHandlerReadBytes {\n				w.requestTooLarge()\n				delHeader(\"Connection\")\n				setHeader.connection = \"close\"\n			} else {\n				w.req.Body.Close()\n			}", New: "			if n < maxPostHandlerReadBytes {\n				w.req.Body.Close()\n			} else {\n				delHeader(\"Connection\")\n				setHeader.connection = \"close\"\n				w.requestTooLarge()\n			}"},
@@ -241,6 +246,11 @@ func runC28(c *core.Ctx) {
 
 	// (e) nothing follows the header block of a bodiless reply
 	c28BodilessSilent(c, e)
+	// (f) the whole reply is on the wire when finishRequest returns
+	c28ReplyFlushed(c, e)
+	// (g) the request body reader is chosen from the framing headers alone
+	c28RequestFramingByHeader(c)
+	c28BodyFromFraming(c)
 
 	// (c) conn.serve
 	if sv := e.serve; sv != nil {
